@@ -281,7 +281,7 @@ Proof.
                 exists prev', fold_left step l (Ok (out, prev, [])) = Ok (out ++ l, prev', [])) end.
   { induction l as [|st l IH]; intros out prev Hl; [exists prev; rewrite app_nil_r; reflexivity|].
     cbn [forallb] in Hl. apply andb_true_iff in Hl. destruct Hl as [H1 H2]. cbn [fold_left bind].
-    destruct st as [| | | | | | | | | | | | |sp code| | | | | | | |]; try discriminate H1.
+    destruct st as [| | | | | | | | | | | | |sp code| | | | | | | | |]; try discriminate H1.
     destruct code; try discriminate H1;
       match goal with |- context [Stmt sp ?c] =>
         destruct (IH (out ++ [Stmt sp c]) (Some (Stmt sp c)) H2) as [p' E]; exists p'; rewrite E, <- app_assoc; reflexivity end. }
